@@ -147,11 +147,23 @@ def _parents(db, chk, m):
                 for s in b:
                     yield from blocks(s)
 
-    for fname in ("enter_func", "exit_func"):
-        f0 = m.func(f"{outer_q}.{fname}")
+    # the two traversal callbacks are found by ROLE: what is handed to dfs_traverse(enter, exit) - closures of the method, or methods of a visitor object built in it
+    cbs = []
+    for c_ in ast.walk(outer):
+        if isinstance(c_, ast.Call) and isinstance(c_.func, ast.Attribute) and c_.func.attr == "dfs_traverse" and len(c_.args) + len(c_.keywords) == 2:
+            for a_ in list(c_.args) + [k_.value for k_ in c_.keywords]:
+                if isinstance(a_, ast.Name) and f"{outer_q}.{a_.id}" in m.functions:
+                    cbs.append((a_.id, m.functions[f"{outer_q}.{a_.id}"], None))
+                elif isinstance(a_, ast.Attribute) and isinstance(a_.value, ast.Name):
+                    ctor = [v for t, v, s_ in H.assignments(outer, nested=False) if H.name_id(t) == a_.value.id and isinstance(v, ast.Call) and H.name_id(v.func) in m.classes]
+                    if len(ctor) == 1 and f"{H.name_id(ctor[0].func)}.{a_.attr}" in m.functions:
+                        cbs.append((f"{H.name_id(ctor[0].func)}.{a_.attr}", m.functions[f"{H.name_id(ctor[0].func)}.{a_.attr}"], H.name_id(ctor[0].func)))
+    if len(cbs) != 2:
+        raise AnalysisError(f"anchor vanished: the two traversal callbacks of {outer_q} (dfs_traverse(enter, exit)) were not found")
+    for fname, f0, vis_cls in cbs:
         where = m.loc(f0)
         f = _split_attribution(m, H.inline_helpers(m, f0, exclude=("_add_edge_helper", "_attribute_edge")))
-        params = H.param_names(f0)
+        params = [p_ for p_ in H.param_names(f0) if not (vis_cls is not None and p_ == "self")]
         nonlocals = {n_ for x in ast.walk(f) if isinstance(x, ast.Nonlocal) for n_ in x.names}
         own = set(params) | {H.name_id(t) for t, v, s_ in H.assignments(f) if isinstance(t, ast.Name)} - nonlocals
 
@@ -159,6 +171,8 @@ def _parents(db, chk, m):
             """traversal state shared between the visits: a nonlocal name, or a field of an object of the enclosing traversal"""
             if k is None:
                 return False
+            if vis_cls is not None:
+                return k.startswith("self.")          # a field of the visitor object lives across the visits
             base = k.split(".")[0]
             if "." in k:
                 return base not in own and base in outer_locals
